@@ -10,10 +10,11 @@ package main
 
 import (
 	"bytes"
-	"encoding/json"
 	"encoding/hex"
+	"encoding/json"
 	"fmt"
 	"strings"
+	"time"
 
 	"github.com/pion/rtcp"
 	"github.com/pion/rtp"
@@ -33,8 +34,12 @@ type c30SDPIn struct {
 	Second       []byte   `json:"second,omitempty"`
 	SecondType   string   `json:"second_type,omitempty"`
 	Cands        []string `json:"cands,omitempty"`
-	Origin       string   `json:"origin,omitempty"`
-	Readable     string   `json:"readable,omitempty"` // the text again, for humans reading replays
+	// Deferred: the transports come up only after all signalling, so the
+	// startRTP work captured by each negotiation runs at the end, in order
+	// (in production it waits behind startTransports on the operations queue)
+	Deferred bool   `json:"deferred,omitempty"`
+	Origin   string `json:"origin,omitempty"`
+	Readable string `json:"readable,omitempty"` // the text again, for humans reading replays
 }
 
 func c30SDPType(s string) webrtc.SDPType {
@@ -116,8 +121,18 @@ func c30SDPChild(in c30SDPIn) (V, Verdict) {
 			return pc.SetLocalDescription(ans)
 		})
 	}
-	// what startRTP does once the transports are up, on the operations queue
-	st.step("start-receivers", func() error { pc.VerifC30StartRTPReceivers(); return nil })
+	// what startRTP does once the transports are up, on the operations queue:
+	// captured where the library captures it, queued now or after all signalling
+	var deferred []func()
+	startReceivers := func(name string) {
+		run := pc.VerifC30PrepareStartRTPReceivers()
+		if in.Deferred {
+			deferred = append(deferred, run)
+			return
+		}
+		st.step(name, func() error { run(); drain(pc); return nil })
+	}
+	startReceivers("start-receivers")
 	if srdOK {
 		st.step("undeclared-ssrc", func() error {
 			_, e := pc.VerifC30UndeclaredOnRemote(0x7777, 96)
@@ -141,9 +156,15 @@ func c30SDPChild(in c30SDPIn) (V, Verdict) {
 				return pc.SetLocalDescription(ans)
 			})
 		}
-		st.step("start-receivers2", func() error { pc.VerifC30StartRTPReceivers(); return nil })
+		startReceivers("start-receivers2")
+	}
+	for i, run := range deferred {
+		run := run
+		st.step(fmt.Sprintf("deferred-start-receivers%d", i+1), func() error { run(); drain(pc); return nil })
 	}
 	st.step("drain", func() error { drain(pc); return nil })
+	// goroutines started by the receivers (first-packet peek) run now
+	st.step("settle", func() error { time.Sleep(300 * time.Microsecond); return nil })
 	st.step("close", func() error { return pc.Close() })
 	obs := VS(strings.Join(st.log, " "))
 	if st.sig != "" {
@@ -268,6 +289,7 @@ func c30GenSDP(r *Rand, i int) c30SDPIn {
 			t2, _ = c30TextMutate(r, t2)
 		}
 		in.Second, in.SecondType = t2, "offer"
+		in.Deferred = r.Bool()
 		origin += "+second"
 	}
 	in.Origin = origin
@@ -585,6 +607,19 @@ func init() {
 			for sem := 0; sem < 3; sem++ {
 				out = append(out, c30SDPIn{Sem: sem, Codecs: 1, Type: "offer", Text: w, Answer: true, Origin: "planb-witness", Readable: string(w)})
 			}
+			// a renegotiation that replaces a simulcast (rid) section by an
+			// SSRC-declared one before the transports are up: the startRTP work
+			// captured for the first offer then runs against the new receiver
+			sess := []c30Attr{{"fingerprint", "sha-256 " + c30FP}, {"ice-ufrag", "ab12"}, {"ice-pwd", "abcdefghijklmnopqrstuv"}}
+			common := []c30Attr{{"mid", "0"}, {"setup", "actpass"}, {"sendonly", ""}, {"rtpmap", "96 VP8/90000"}, {"msid", "s t"}}
+			o1 := []byte(c30Desc{Session: sess, Media: []c30Media{{Kind: "video", Port: 9, Proto: "UDP/TLS/RTP/SAVPF", Formats: []string{"96"},
+				Attrs: append(append([]c30Attr{}, common...), c30Attr{"rid", "hi send"}, c30Attr{"simulcast", "send hi"})}}}.Text())
+			o2 := []byte(c30Desc{Session: sess, Media: []c30Media{{Kind: "video", Port: 9, Proto: "UDP/TLS/RTP/SAVPF", Formats: []string{"96"},
+				Attrs: append(append([]c30Attr{}, common...), c30Attr{"ssrc", "3000 cname:x"})}}}.Text())
+			for sem := 0; sem < 3; sem++ {
+				out = append(out, c30SDPIn{Sem: sem, Codecs: 3, Type: "offer", Text: o1, Answer: true, Second: o2, SecondType: "offer",
+					Deferred: true, Origin: "stale-startrtp-witness", Readable: string(o1)})
+			}
 			out = append(out, c30TruncationSweep(97)...)
 			return out
 		},
@@ -638,9 +673,9 @@ func init() {
 				{Pkt: ""}, {Pkt: "80"}, {Pkt: "8060"}, {Pkt: "806000"},
 				{Pkt: "90600001000000010000000abede0001"}, // extension announced, body missing
 				{Pkt: "b0e00001000000010000000a" + "bede0000" + "00"},
-				{Pkt: "a0600001000000010000000a" + "ff"},    // padding count beyond the packet
-				{Pkt: "a0600001000000010000000a" + "00"},    // padding bit, zero count
-				{Pkt: "9f600001000000010000000a"},           // 15 CSRCs announced, none present
+				{Pkt: "a0600001000000010000000a" + "ff"}, // padding count beyond the packet
+				{Pkt: "a0600001000000010000000a" + "00"}, // padding bit, zero count
+				{Pkt: "9f600001000000010000000a"},        // 15 CSRCs announced, none present
 				{Pkt: "80c80006", Kind: 1}, {Pkt: "81c90001", Kind: 1}, {Pkt: "", Kind: 1},
 			}
 		},
